@@ -9,7 +9,10 @@ correspondence: every case is also run through `psd_dft QNum` INSIDE Coq (vm_com
 oracle/search : certificate checking of the implementation's actual outputs against the property text: non-negativity, reproduction
                 of exact combinations within the optimiser tolerance, kernel_loading = kernel applied to distribution*dw (order 0),
                 cumulative non-decreasing and = running integral, points outside the limits do not matter (moved / removed),
-                CalculationError for window pressures outside the kernel's range
+                CalculationError for window pressures outside the kernel's range; several kernel files in one process (same file
+                name in different directories, same stem / other extension, same content / other name, shipped kernel by name and by
+                path before and after its namesakes): each fit is judged against the file actually passed; the kernel the cache returns
+                after the whole history is compared with the file text; the cache model (Charact/KernelCache.v) is run in Coq on the history
 """
 import os
 import random
@@ -41,11 +44,17 @@ MANIFEST = dict(
          "weights (= distribution*dw for order 0); an exact non-negative combination makes the objective's minimum 0 and every feasible "
          "minimiser reproduces it, objective <= eps bounds every squared residual; cumulative = running integral (induction) and monotone when "
          "the reported distribution is non-negative; result depends only on the points inside [lo,hi) for any number of outside points; "
-         "pressures outside the interpolators' range give CalculationError. NOT proved, only validated on every run by certificate checking of "
+         "pressures outside the interpolators' range give CalculationError; the kernel cache of _load_kernel (path-keyed) hands every fit the "
+         "parse of the file that was actually passed, for any history of kernel files in one process (induction over the history; a cache keyed "
+         "by the bare file name is refuted). NOT proved, only validated on every run by certificate checking of "
          "the implementation's outputs on random sparse/dense exact combinations (shipped 77-width kernel and generated user kernel files, "
          "orders 0-3, limits): SLSQP convergence to a minimiser within tolerance (objective <= 5e-2 = 500 x ftol, 3 x the measured maximum), non-negativity "
          "after B-spline smoothing, behaviour of scipy's cubic interp1d inside its range. The model is tied to the code on every run by "
-         "executing it inside Coq on the recorded oracle answers and comparing all outputs with the implementation.",
+         "executing it inside Coq on the recorded oracle answers and comparing all outputs with the implementation. Several kernel files are "
+         "used in ONE process on every run (edited copies of the shipped kernel under the same file name in other directories, before and after "
+         "the shipped one by name and by path; user kernels with the same name in different directories / same stem with another extension; "
+         "byte copies under another name): every fit is judged against the file actually passed (kernel isotherms read from the file text at the "
+         "file's own pressure nodes, or parsed with an empty cache), and the cache model is executed in Coq on the recorded history.",
     note="Trusted: Coq kernel; Reals axioms as Print Assumptions reports; oracles scipy.optimize.minimize(SLSQP) (post-condition x>=0, len x = "
          "number of widths is a premise), scipy.interpolate.interp1d cubic (raises ValueError outside its range: premise), bspline/splev for "
          "degree>0 (no contract); searchsorted modelled for ascending pressures; carrier argument RNum/QNum; harness hooks on "
@@ -70,12 +79,40 @@ def kernel_path(name):
     return str(KERNELS.get(name, name))
 
 
+_FRESH = {}
+
+
 def load(path):
-    """the implementation's own kernel loader: (keys, widths, {key: interp1d}, lo, hi)"""
-    k = pk()._load_kernel(path)
+    """ORACLE side: the implementation's own kernel PARSER applied to the file at `path`, with an empty kernel cache (so that what
+    the harness calls "the kernel of file X" never depends on which kernels the process used before); the implementation's own,
+    stateful cache is left untouched. -> (keys, widths, {key: interp1d}, lo, hi)"""
+    path = str(path)
+    if path not in _FRESH:
+        m = pk()
+        saved = getattr(m, '_LOADED', None)
+        if isinstance(saved, dict):
+            m._LOADED = {}
+        try:
+            _FRESH[path] = m._load_kernel(path)
+        finally:
+            if isinstance(saved, dict):
+                m._LOADED = saved
+    k = _FRESH[path]
     keys = list(k.keys())
     x = k[keys[0]].x
     return keys, np.asarray(keys, dtype='float64'), k, float(x[0]), float(x[-1])
+
+
+def load_stateful(path):
+    """the kernel the implementation holds for `path` NOW (through its cache, after whatever the process did before)"""
+    return pk()._load_kernel(str(path))
+
+
+def fingerprint(k):
+    """identifies the CONTENT of a loaded kernel (column names, nodes and values of the first and last column)"""
+    keys = list(k.keys())
+    a, b = k[keys[0]], k[keys[-1]]
+    return (tuple(str(x) for x in keys), tuple(np.asarray(a.x, dtype=float)), tuple(np.asarray(a.y, dtype=float)), tuple(np.asarray(b.y, dtype=float)))
 
 
 def kernel_matrix(path, p):
@@ -88,12 +125,17 @@ class Hooks:
     """records what SLSQP and bspline answered during one call (module attributes of psd_kernel replaced in this process only)"""
 
     def __init__(self):
-        self.x = None; self.fun = None; self.success = None; self.spline = None
+        self.x = None; self.fun = None; self.success = None; self.spline = None; self.loads = []
 
     def __enter__(self):
         m = pk()
-        self.m, self.o_opt, self.o_bs = m, m.optimize, m.bspline
+        self.m, self.o_opt, self.o_bs, self.o_lk = m, m.optimize, m.bspline, m._load_kernel
         hook = self
+
+        def lk(path, *a, **kw):
+            r = hook.o_lk(path, *a, **kw)
+            hook.loads.append((str(path), r))
+            return r
 
         class Opt:
             def __getattr__(s, n):
@@ -109,11 +151,11 @@ class Hooks:
             deg = kw.get('degree', a[1] if len(a) > 1 else 2)
             hook.spline = (int(deg), np.array(r[0], dtype=float), np.array(r[1], dtype=float))
             return r
-        m.optimize, m.bspline = Opt(), bs
+        m.optimize, m.bspline, m._load_kernel = Opt(), bs, lk
         return self
 
     def __exit__(self, *a):
-        self.m.optimize, self.m.bspline = self.o_opt, self.o_bs
+        self.m.optimize, self.m.bspline, self.m._load_kernel = self.o_opt, self.o_bs, self.o_lk
 
 
 def make_iso(p, l):
@@ -135,21 +177,22 @@ def call_psd(c, p=None, l=None):
                 r = dict(pore_widths=r[0], pore_distribution=r[1], pore_volume_cumulative=r[2], kernel_loading=r[3], limits=(0, len(p) - 1))
             else:
                 lim = None if c['lo'] is None and c['hi'] is None else (c['lo'], c['hi'])
-                r = pk().psd_dft(make_iso(p, l), kernel=c['path'], p_limits=lim, bspline_order=c['order'])
+                r = pk().psd_dft(make_iso(p, l), kernel=(SHIPPED if c.get('by_name') else c['path']), p_limits=lim, bspline_order=c['order'])
         return 'Ok', {k: (np.asarray(v, dtype=float) if k != 'limits' else (int(v[0]), int(v[1]))) for k, v in r.items()}, h
     except Exception as e:  # noqa
         return vlib.exn_class(e), None, h
 
 
 # ------------------------------------------------------------------ user kernels
-def write_user_kernel(rnd, d, i):
+def write_user_kernel(rnd, d, i, name=None):
     m = rnd.randint(4, 10)
     npz = rnd.randint(8, 20)
     w = np.cumsum([rnd.uniform(0.3, 0.8)] + [rnd.uniform(0.05, 0.6) for _ in range(m - 1)])
     pmax = rnd.choice([0.5, 0.9, 0.95, 1.0])
     pr = np.sort(np.exp([rnd.uniform(np.log(1e-5), np.log(pmax)) for _ in range(npz - 1)] + [np.log(pmax)]))
     pr = np.unique(np.round(pr, 9))
-    path = os.path.join(d, 'user_kernel_%d.csv' % i)
+    os.makedirs(d, exist_ok=True)
+    path = os.path.join(d, name or 'user_kernel_%d.csv' % i)
     with open(path, 'w') as f:
         f.write(',' + ','.join('%.4f' % x for x in w) + '\n')
         cap = [rnd.uniform(2, 30) for _ in range(m)]
@@ -168,13 +211,26 @@ def read_csv_plain(path):
     return keys, pr, tab
 
 
-def check_loader(rep, path):
-    """_load_kernel vs the file: same columns in file order, abscissae = [0] + file pressures, ordinates = [0] + column,
-    every interpolator reproduces its nodes; -> (lo, hi) the range the FILE implies (zero row prepended)"""
+def kernel_matrix_text(path, p):
+    """kernel isotherms at pressures that are NODES of the file, read from the file text (no interpolation, no loader)"""
     fk, fp, ft = read_csv_plain(path)
-    keys, widths, k, lo, hi = load(path)
+    row = {x: i for i, x in enumerate(fp)}
+    return np.asarray([[ft[row[float(x)]][j] for x in p] for j in range(len(fk))], dtype=float)
+
+
+def check_loader(rep, path, stateful=False):
+    """_load_kernel vs the file: same columns in file order, abscissae = [0] + file pressures, ordinates = [0] + column,
+    every interpolator reproduces its nodes; -> (lo, hi) the range the FILE implies (zero row prepended).
+    stateful=True: the kernel the implementation's cache returns for this path after the whole history of this process
+    (cache coherence: it must still be the parse of THIS file)"""
+    fk, fp, ft = read_csv_plain(path)
+    if stateful:
+        k = load_stateful(path)
+        keys = list(k.keys())
+    else:
+        keys, widths, k, lo, hi = load(path)
     bad = None
-    if [float(a) for a in keys] != [float(a) for a in fk]:
+    if len(keys) != len(fk) or [float(a) for a in keys] != [float(a) for a in fk]:
         bad = 'columns differ from the file'
     else:
         for j, s in enumerate(keys):
@@ -186,8 +242,64 @@ def check_loader(rep, path):
             if not np.allclose(v, col[1:], rtol=1e-9, atol=1e-12):
                 bad = 'interpolator of column %s does not reproduce the file values at the file pressures' % s; break
     if bad:
-        rep.broken_obligation('correspondence:_load_kernel-vs-file', {'kernel': path, 'what': bad})
+        rep.broken_obligation('correspondence:_load_kernel-vs-file' + ('-after-history' if stateful else ''),
+                              {'kernel': path, 'what': bad + (' (kernel returned by the cache after other kernels were used in this process)' if stateful else '')})
     return 0.0, max(fp)
+
+
+# ------------------------------------------------------------------ several kernel files in ONE process
+def write_kernel_text(path, keys, pr, tab):
+    os.makedirs(os.path.dirname(path), exist_ok=True)
+    with open(path, 'w') as f:
+        f.write(',' + ','.join(keys) + '\n')
+        for x, r in zip(pr, tab):
+            f.write('%r,' % float(x) + ','.join('%.9g' % v for v in r) + '\n')
+    return path
+
+
+def edited_copy(rnd, src, dst, how):
+    """a user's edited copy of a kernel file: 'scale' (every column by its own factor), 'drop' (about half of the widths removed),
+    'shift' (other widths in the header, same table), 'same' (byte copy)"""
+    if how == 'same':
+        os.makedirs(os.path.dirname(dst), exist_ok=True)
+        shutil.copyfile(src, dst)
+        return dst
+    keys, pr, tab = read_csv_plain(src)
+    tab = np.asarray(tab, dtype=float)
+    if how == 'scale':
+        tab = tab * np.array([rnd.uniform(0.3, 3.0) for _ in keys])
+    elif how == 'drop':
+        keep = sorted(rnd.sample(range(len(keys)), max(4, len(keys) // 2)))
+        keys, tab = [keys[j] for j in keep], tab[:, keep]
+    elif how == 'shift':
+        keys = ['%.4f' % (float(k) * 1.25 + 0.1) for k in keys]
+    return write_kernel_text(dst, keys, pr, tab)
+
+
+def gen_multi(rnd, udir, shipped_path):
+    """-> list of (scenario label, path, by_name, twin index | None): kernel files used one after the other in this process.
+    Same file name in different directories (copies of the shipped kernel with edited content, generated user kernels), same stem
+    with another extension, different names with the same content; every file is used before AND after its namesakes."""
+    base = os.path.basename(shipped_path)
+    d = lambda *a: os.path.join(udir, *a)
+    hows = ['scale', 'drop', 'shift']
+    rnd.shuffle(hows)
+    s1a = edited_copy(rnd, shipped_path, d('m1', base), hows[0])
+    s1b = edited_copy(rnd, shipped_path, d('m2', base), hows[1])
+    ua = write_user_kernel(rnd, d('ua'), 0, name='kernel.csv')
+    ub = write_user_kernel(rnd, d('ub'), 0, name='kernel.csv')
+    uc = write_user_kernel(rnd, d('ua'), 0, name='kernel.txt')
+    k1 = write_user_kernel(rnd, d('uc'), 0, name='first_name.csv')
+    k2 = edited_copy(rnd, k1, d('uc', 'second_name.csv'), 'same')
+    k3 = edited_copy(rnd, k1, d('ud', 'first_name.csv'), hows[2])
+    seq = [('copy-of-shipped-same-name', s1a, False), ('shipped-after-its-namesake', shipped_path, True),
+           ('copy-of-shipped-same-name', s1b, False), ('shipped-after-its-namesake', shipped_path, False),
+           ('copy-of-shipped-same-name', s1a, False),
+           ('user-same-name-other-directory', ua, False), ('user-same-name-other-directory', ub, False), ('user-same-stem-other-extension', uc, False),
+           ('user-same-name-other-directory', ua, False), ('user-same-name-other-directory', ub, False),
+           ('same-content-other-name', k1, False), ('same-content-other-name', k2, False), ('user-same-name-other-directory', k3, False),
+           ('same-content-other-name', k1, False)]
+    return seq, {k2: k1}
 
 
 # ------------------------------------------------------------------ cases
@@ -232,8 +344,42 @@ def gen_cases(tier, seed, udir):
     rnd = random.Random(seed)
     nfit = 600 if tier == 'thorough' else 40
     nuser = 12 if tier == 'thorough' else 3
-    kernels = [kernel_path(SHIPPED)] + [write_user_kernel(rnd, udir, i) for i in range(nuser)]
+    kernels = [kernel_path(SHIPPED)] + [write_user_kernel(rnd, udir, i, name='user_kernel_%d_s%d_%s.csv' % (i, seed, tier)) for i in range(nuser)]
     cases = []
+    # ---- several kernel files used one after the other in THIS process (they come first: the implementation's kernel cache is
+    # still empty for them on the first exploration). Every fit is judged against the file that was actually passed.
+    multi, twins = gen_multi(rnd, os.path.join(udir, 'multi_%d_%s' % (seed, tier)), kernels[0])
+    last = {}
+    for si, (label, path, by_name) in enumerate(multi):
+        if path in twins and twins[path] in last:
+            c = dict(last[twins[path]])
+            c.update(path=path, scenario=label, twin_of=twins[path])
+            cases.append(c)
+            continue
+        keys, widths, k, klo, khi = load(path)
+        fk, fp, ft = read_csv_plain(path)
+        text_nodes = si % 2 == 0
+        if text_nodes:      # pressures = nodes of the file: the kernel isotherms are read from the file TEXT
+            p = sorted(rnd.sample(fp, min(len(fp), rnd.randint(10, 30))))
+            kind = 'file-nodes'
+        else:
+            kind, p = gen_grid(rnd, klo, khi, float(k[keys[0]].x[1]), rnd.randint(10, 30))
+        n = len(p)
+        pat, scale, w = gen_weights(rnd, len(keys))
+        K = kernel_matrix_text(path, p) if text_nodes else kernel_matrix(path, p)
+        l = (K * w[:, None]).sum(axis=0)
+        direct = (not by_name and si % 5 == 3)
+        lm = rnd.choice(['none', 'none', 'both', 'hi']) if n >= 10 and not direct else 'none'
+        lo = hi = None
+        if lm == 'both':
+            i = rnd.randint(1, max(1, n // 3)); lo = 0.5 * (p[i - 1] + p[i])
+        if lm in ('hi', 'both'):
+            i = rnd.randint(max(2 * n // 3, 5), n - 1); hi = 0.5 * (p[i - 1] + p[i])
+        c = dict(kind='fit', path=path, shipped=(path == kernels[0]), by_name=by_name, p=[float(x) for x in p], l=[float(v) for v in l],
+                 w=[float(v) for v in w], lo=lo, hi=hi, order=0, weights=pat, scale=scale, grid=kind, limits=lm, direct=direct,
+                 scenario=label, text_nodes=text_nodes, history=[(q, bn) for _, q, bn in multi[:si]])
+        last[path] = c
+        cases.append(c)
     for ci in range(nfit):
         path = kernels[0] if rnd.random() < 0.7 else rnd.choice(kernels[1:])
         keys, widths, k, klo, khi = load(path)
@@ -251,7 +397,7 @@ def gen_cases(tier, seed, udir):
             i = rnd.randint(max(2 * n // 3, 5), n - 1)
             hi = p[i] if rnd.random() < 0.25 else 0.5 * (p[i - 1] + p[i])
         cases.append(dict(kind='fit', path=path, shipped=(path == kernels[0]), p=p, l=[float(v) for v in l], w=[float(v) for v in w], lo=lo, hi=hi,
-                          order=ci % 4, weights=pat, scale=scale, grid=kind, limits=lm, direct=False))
+                          order=ci % 4, weights=pat, scale=scale, grid=kind, limits=lm, direct=False, by_name=(path == kernels[0] and ci % 3 == 0)))
     # refusal: a pressure of the window outside the kernel's range; and (correspondence only) windows with < 3 points
     nref = 60 if tier == 'thorough' else 12
     for ci in range(nref):
@@ -328,8 +474,21 @@ def classify(c, clause):
 
 def brief(c):
     d = {k: c[k] for k in ('kind', 'path', 'p', 'l', 'w', 'lo', 'hi', 'order', 'weights', 'scale', 'grid', 'limits', 'direct')}
+    d['by_name'] = bool(c.get('by_name'))
     if not c['shipped']:
         d['kernel_csv'] = open(c['path']).read()
+    if c.get('scenario'):
+        # the kernel files this process used BEFORE this fit (needed to reproduce: the failure may depend on them)
+        d['scenario'] = c['scenario']
+        stem = lambda q: os.path.splitext(os.path.basename(q))[0]
+        seen, hb = set(), []
+        for q, bn in c.get('history', []):
+            if q == c['path'] or q in seen or (stem(q) != stem(c['path']) and q != kernel_path(SHIPPED)):
+                continue
+            seen.add(q)
+            hb.append({'path': q, 'by_name': bn, 'csv': (None if q == kernel_path(SHIPPED) else open(q).read())})
+        d['kernels_used_before'] = hb
+        d['kernels_used_before_note'] = 'namesakes of the failing kernel file and the shipped kernel only; %d files were used before in the run' % len(c.get('history', []))
     return d
 
 
@@ -355,18 +514,28 @@ def explore(rep, tier, seed, udir):
     terms, meta = [], []
     stats = dict(max_objective=0.0, max_abs_residual=0.0, min_distribution=0.0, fits=0, perturbation_runs=0, refusals=0)
     rnd = random.Random(seed * 7 + 1)
+    results = {}
+    history = []
 
     def fail(c, clause, what, extra=None):
         d = brief(c); d['clause'] = clause
         if extra:
             d.update(extra)
+        if c.get('scenario'):
+            what += ' [kernel %s; scenario %s: %d kernel file(s) used earlier in this process, namesakes: %s]' % (
+                c['path'], c['scenario'], len(c.get('history', [])),
+                sorted({q for q, _ in c.get('history', []) if q != c['path'] and os.path.splitext(os.path.basename(q))[0] == os.path.splitext(os.path.basename(c['path']))[0]}))
         rep.failure(classify(c, clause), what, d)
 
+    import time
+    t_impl = time.time()
     for ci, c in enumerate(cases):
         oc, res, h = call_psd(c)
-        key = '%s/%s/order%d/limits-%s/%s/%s' % (c['kind'], 'shipped' if c['shipped'] else 'user', c['order'], c['limits'], c['weights'], c['grid'])
+        key = ('multi-kernel/%s/%s' % (c['scenario'], c['grid'])) if c.get('scenario') else '%s/%s/order%d/limits-%s/%s/%s' % (c['kind'], 'shipped' if c['shipped'] else 'user', c['order'], c['limits'], c['weights'], c['grid'])
         hist[key] = hist.get(key, 0) + 1
         terms.append(coq_term(c, oc, res, h, frange)); meta.append((c, oc, res))
+        for lp, lk_ in h.loads:
+            history.append((lp, fingerprint(lk_), ci))
         klo, khi = frange[c['path']]
         if c['kind'] == 'refusal':
             stats['refusals'] += 1
@@ -413,7 +582,7 @@ def explore(rep, tier, seed, udir):
             continue
         dW = np.ediff1d(W, to_begin=W[0])
         if c['order'] == 0:
-            KPw = kernel_matrix(c['path'], pw)
+            KPw = kernel_matrix_text(c['path'], pw) if c.get('text_nodes') else kernel_matrix(c['path'], pw)
             if len(D) != KPw.shape[0] or len(KL) != KPw.shape[1] or not np.allclose((KPw * (D * dW)[:, None]).sum(axis=0), KL, rtol=REL, atol=1e-12):
                 fail(c, 'fitted-isotherm-not-kernel-sum', 'kernel_loading != kernel applied to pore_distribution*dw')
         # 4 cumulative: non-decreasing, running integral of the reported distribution
@@ -452,14 +621,61 @@ def explore(rep, tier, seed, udir):
                     fail(c, 'outside-points-influence', 'points outside the limits %s: result changed (%s)' % (label, oc2),
                          {'perturbed_p': pp, 'perturbed_l': ll})
             nontrivial.add(('window', ci))
+        # 6 several kernel files in one process: a byte-identical copy under another name gives the same result
+        results[ci] = res
+        if c.get('twin_of') is not None:
+            j = next((i for i in range(ci) if cases[i]['path'] == c['twin_of'] and i in results), None)
+            if j is not None and not all(len(results[j][k]) == len(res[k]) and np.allclose(results[j][k], res[k], rtol=1e-10, atol=1e-14)
+                                         for k in ('pore_widths', 'pore_distribution', 'pore_volume_cumulative', 'kernel_loading')):
+                fail(c, 'same-content-kernel-different-result', 'kernel file %s is a byte copy of %s but the same isotherm is fitted differently' % (c['path'], c['twin_of']))
+        if c.get('scenario'):
+            nontrivial.add(('multi-kernel', c['scenario'], ci))
+            stats['multi_kernel_fits'] = stats.get('multi_kernel_fits', 0) + 1
         nontrivial.add(('fit', c['shipped'], c['order'], c['limits'], c['weights'], ci))
 
+    # ---- cache coherence: after this history of kernel files, the kernel the implementation returns for every path is still the
+    # parse of THAT file (model: Charact/KernelCache.v, cache_coherent)
+    for path in sorted({c['path'] for c in cases}):
+        check_loader(rep, path, stateful=True)
+    # the cache model executed inside Coq on the history of _load_kernel calls of this exploration: the kernel handed out at step i
+    # (identified by its content) must be the one the model returns = the parse of the i-th requested file
+    if history:
+        paths = sorted({lp for lp, _, _ in history})
+        fp_of = {lp: fingerprint(load(lp)[2]) for lp in paths}
+        ids = {}
+        for lp in paths:
+            ids.setdefault(fp_of[lp], len(ids))
+        seen = [ids.get(f, -1) for _, f, _ in history]
+        hdr = ('From Coq Require Import ZArith List String.\nFrom PG Require Import Charact.KernelCache.\nImport ListNotations. Open Scope string_scope.\n'
+               'Definition hist_ok (files : list (string * Z)) (hist : list string) (seen : list Z) : list Z :=\n'
+               '  let parse := fun p => match find (fun x => String.eqb (fst x) p) files with Some x => snd x | None => (-1)%Z end in\n'
+               '  map (fun ab => if Z.eqb (fst ab) (snd ab) then 1%Z else 0%Z) (combine (path_cache_run parse hist) seen).\n')
+        qs = lambda t: '"%s"' % t.replace('"', '""')
+        term = '(hist_ok [%s] [%s] [%s])' % ('; '.join('(%s, %d%%Z)' % (qs(lp), ids[fp_of[lp]]) for lp in paths),
+                                            '; '.join(qs(lp) for lp, _, _ in history), '; '.join('(%d)%%Z' % v for v in seen))
+        try:
+            okl = vlib.run_coq_cases('c18h', hdr, 'fun x : list Z => x', [term], per_file=1, nested=True)[0]
+            nbad = 0
+            for (lp, _, ci), ok1 in zip(history, okl):
+                if ok1 != 1 and nbad < 3:
+                    nbad += 1
+                    rep.broken_obligation('correspondence:kernel-cache-model-vs-implementation',
+                                          {'step': history.index((lp, _, ci)), 'requested': lp, 'what': 'the kernel handed to the fit is not the content of the requested file '
+                                           '(model Charact/KernelCache.v: path-keyed cache returns parse(path) after any history)',
+                                           'kernel_files_requested_before': [q for q, _, _ in history[:history.index((lp, _, ci))]][-6:]})
+            if len(okl) != len(history):
+                rep.broken_obligation('correspondence:kernel-cache-model-vs-implementation', 'history length %d, model answered %d' % (len(history), len(okl)))
+        except RuntimeError as e:
+            rep.broken_obligation('correspondence:kernel-cache-model-evaluation', str(e)[-600:])
+        rep.cov['kernel_cache_history'] = {'load_calls': len(history), 'distinct_files': len(paths), 'distinct_contents': len(ids)}
     # ---- the model inside Coq on the recorded oracle answers
     model = None
+    t_coq = time.time()
     try:
         model = vlib.run_coq_cases('c18m', HEADER, 'fun x : list Z => x', terms, per_file=max(1, min(4, len(terms) // vlib.NCPU + 1)), nested=True)
     except RuntimeError as e:
         rep.broken_obligation('correspondence:Kernel-model-evaluation', str(e)[-800:])
+    rep.cov['phase_wall_s'] = {'implementation_and_oracle_s': round(t_coq - t_impl, 1), 'coq_model_s': round(time.time() - t_coq, 1)}
     ndis = 0
     if model is not None:
         for (c, oc, res), mz in zip(meta, model):
@@ -498,7 +714,7 @@ def explore(rep, tier, seed, udir):
                                 'oracle: scipy.interpolate.interp1d(kind=cubic) - premise: ValueError outside [x0, xn], a value inside; values validated only through self-consistency',
                                 'oracle: math_utilities.bspline / scipy.interpolate.splev for degree > 0 - no contract assumed; non-negativity after smoothing validated only',
                                 'numpy.searchsorted modelled as the number of leading elements < v (ascending pressures)',
-                                'harness hooks: psd_kernel.optimize / psd_kernel.bspline replaced by recording wrappers in the harness process',
+                                'harness hooks: psd_kernel.optimize / psd_kernel.bspline / psd_kernel._load_kernel replaced by recording wrappers in the harness process; the harness reads "the kernel of file X" with an EMPTY kernel cache (module attribute _LOADED swapped for the call) or from the file text',
                                 'carrier: theorems over RNum, execution over QNum']
     rep.assumptions += ['un-modelled runtime behaviour: SLSQP convergence (reproduction of exact combinations is validated: objective <= 5e-2 on every generated case; SLSQP reporting success far from the minimum for loadings of hundreds of mmol/g is the recorded finding C18-F1)',
                         'un-modelled: B-spline smoothing for orders 1-3 (non-negativity and monotone cumulative after smoothing are validated on the outputs, not proved)',
@@ -513,11 +729,30 @@ def replay(d):
     r = d['replay']
     c = dict(r)
     c['shipped'] = 'kernel_csv' not in r
-    if 'kernel_csv' in r:
+    if 'kernel_csv' in r and not r.get('kernels_used_before'):
         udir = os.path.join(vlib.SCRATCH, 'c18_replay_%d' % os.getpid())
         os.makedirs(udir, exist_ok=True)
         c['path'] = os.path.join(udir, 'k.csv')
         open(c['path'], 'w').write(r['kernel_csv'])
+    if r.get('kernels_used_before'):
+        # several kernel files in one process: recreate the files (same file names, separate directories as in the run) and use them first
+        udir = os.path.join(vlib.SCRATCH, 'c18_replay_%d' % os.getpid())
+        dirs = {}
+        def place(orig, text):
+            dd = dirs.setdefault(os.path.dirname(orig), os.path.join(udir, 'd%d' % len(dirs)))
+            os.makedirs(dd, exist_ok=True)
+            q = os.path.join(dd, os.path.basename(orig))
+            open(q, 'w').write(text)
+            return q
+        for hst in r['kernels_used_before']:
+            q = kernel_path(SHIPPED) if hst['csv'] is None else place(hst['path'], hst['csv'])
+            keys, _, k, _, khi = load(q)
+            pp = list(np.linspace(khi / 20, khi, 12))
+            ll = list(k[keys[0]](np.asarray(pp)))
+            oc0, _, _ = call_psd(dict(path=q, by_name=hst['by_name'], p=pp, l=ll, lo=None, hi=None, order=0, direct=False))
+            print('used before:', q, '->', oc0)
+        if 'kernel_csv' in r:
+            c['path'] = place(r['path'], r['kernel_csv'])
     print('clause:', r.get('clause'), '| kernel:', c['path'], '| order', c['order'], '| limits', c['lo'], c['hi'])
     oc, res, h = call_psd(c)
     print('outcome:', oc)
@@ -526,9 +761,19 @@ def replay(d):
         print('limits', res['limits'], 'min distribution %g' % res['pore_distribution'].min(), 'cumulative monotone', bool((np.diff(res['pore_volume_cumulative']) >= -1e-12).all()))
         if len(lw) == len(res['kernel_loading']):
             print('sum of squared residuals %g' % float(((res['kernel_loading'] - lw) ** 2).sum()))
+        if c['order'] == 0:
+            pw = c['p'][max(res['limits'][0], 0):res['limits'][1] + 1]
+            KPw = kernel_matrix(c['path'], pw)          # the kernel of the file that was passed (read with an empty cache)
+            W, D = res['pore_widths'], res['pore_distribution']
+            same = len(D) == KPw.shape[0] and len(res['kernel_loading']) == KPw.shape[1] and bool(
+                np.allclose((KPw * (D * np.ediff1d(W, to_begin=W[0]))[:, None]).sum(axis=0), res['kernel_loading'], rtol=REL, atol=1e-12))
+            print('kernel_loading is the sum of the kernel isotherms of THIS file weighted by the reported distribution:', same,
+                  '(%d reported widths, the file has %d columns)' % (len(W), KPw.shape[0]))
     if 'perturbed_p' in r:
         oc2, res2, _ = call_psd(c, r['perturbed_p'], r['perturbed_l'])
         print('perturbed outcome:', oc2, None if res2 is None else float(np.abs(res2['pore_distribution'] - res['pore_distribution']).max()) if len(res2['pore_distribution']) == len(res['pore_distribution']) else 'shape differs')
-    if 'kernel_csv' in r:
+    if r.get('kernels_used_before'):
+        shutil.rmtree(os.path.join(vlib.SCRATCH, 'c18_replay_%d' % os.getpid()), ignore_errors=True)
+    elif 'kernel_csv' in r:
         shutil.rmtree(os.path.dirname(c['path']), ignore_errors=True)
     return 1
